@@ -46,9 +46,10 @@ func ok(body string) func(http.ResponseWriter) {
 	return func(w http.ResponseWriter) { fmt.Fprint(w, body) }
 }
 
-// (a) Retry-After in seconds, too large for time.Duration: the wait must not collapse to (almost) nothing.
+// (a) Retry-After in seconds, too large for time.Duration (the product with time.Second wraps round) or for
+// int (strconv.Atoi reports ErrRange and the value is dropped): the wait must not collapse to (almost) nothing.
 func TestRetryAfterFormsHugeSeconds(t *testing.T) {
-	for _, ra := range []string{"9223372037", "18446744073"} {
+	for _, ra := range []string{"9223372037", "18446744073", "99999999999999999999"} {
 		t.Run(ra, func(t *testing.T) {
 			srv := &scriptedServer{script: []func(http.ResponseWriter){unavailable(ra), ok(`{"tree_size":11}`)}}
 			ts := httptest.NewServer(srv)
